@@ -4,6 +4,7 @@ CONSTANTS
   BoundModes <- BM1
   MenuKind = "focus"
   MaxDepth = 4
+  StartChain = FALSE
   Emit = TRUE
 INVARIANT BagMatches
 INVARIANT ListMatches
